@@ -236,7 +236,7 @@ def _main(prop: str, tier: str, seed: int, a: Any) -> int:
 				found = (inp, out)
 		if found:
 			violations.append(Violation(prop, found[1].detail, r.ob.func, r.ob.name, r.ob.clause, found[0], found[1].detail, r.res.detail[:1500], key))
-		elif r.res.verdict == 'refuted' and key in baseline:
+		elif r.res.verdict == 'refuted' and (key in baseline or (r.ob.kind.startswith('raises') and f'{strip_inst(r.ob.func)}|raises-clause' in baseline)):
 			violations.append(Violation(prop, f'obligation discharged on the unchanged tree now has a counter-model: {r.ob.clause}', r.ob.func, r.ob.name, r.ob.clause, None,
 				native.detail if native else 'model not concretisable', (json.dumps(jsonable(r.res.model))[:1500] if r.res.model else '') + '\n' + r.res.detail[:1500], key))
 		else:
@@ -348,7 +348,13 @@ def _main(prop: str, tier: str, seed: int, a: Any) -> int:
 	json.dump(evidence, open(os.path.join(VERIF, 'evidence', f'{prop}.json'), 'w'), indent=1, ensure_ascii=False)
 	if a.update_baseline:
 		bl = load_baseline()
-		bl[prop] = sorted({ob_key(r) for r in rep.results if r.ok and r.ob.expect == 'proved'})
+		keys = {ob_key(r) for r in rep.results if r.ok and r.ob.expect == 'proved'}
+		# a function whose raises clause held (no escaping exception left undischarged) gets a function-level key:
+		# a later run in which a disallowed exception can escape is a regression of that clause even though the failing path is new
+		funcs = {strip_inst(r.ob.func) for r in rep.results}
+		bad_raises = {strip_inst(r.ob.func) for r in rep.results if r.ob.kind.startswith('raises') and not r.ok}
+		keys |= {f'{f}|raises-clause' for f in funcs - bad_raises if find_contract(f) is not None}
+		bl[prop] = sorted(keys)
 		json.dump(bl, open(BASELINE_FILE, 'w'), indent=1, ensure_ascii=False)
 	print(f'{prop}: {n_ok}/{n_ob} obligations discharged ({by_backend}), {len(rep.functions)} functions under contract, {len(lemmas)} lemmas, '
 		f'{sum(b["cases"] for b in bounded)} bounded-twin cases, {len(closed)} closed obligations, {len(undecided)} undecided, wall {time.time() - t_start:.1f}s')
